@@ -831,6 +831,9 @@ class Models:
         if g.ifs:
             return ip.schema.filtered_comprehension(ip, e, fr, first)
         S = self.as_seq_iter(ip, first)
+        # a comprehension is evaluated where it stands: the lazily evaluated element must see the bindings of *now*, not
+        # those a later statement (e.g. the next iteration of an enclosing loop) gives to the same names
+        fr = self.snapshot_frame(fr)
 
         def elem(k):
             kt = k if not isinstance(k, int) else z3.IntVal(k)
@@ -847,6 +850,21 @@ class Models:
                 if guarded:
                     ip.path.guards.pop()
         return SSeq(S.n, elem, "list", "comprehension@%d" % e.lineno)
+
+    def snapshot_frame(self, fr):
+        from .interp import Frame
+        chain = []
+        f = fr
+        while f is not None:
+            chain.append(f)
+            f = f.parent
+        new_parent = None
+        for f in reversed(chain):
+            g = Frame(f.module, dict(f.locals), new_parent, f.finfo)
+            g.nonlocals = set(f.nonlocals)
+            g.cls = f.cls
+            new_parent = g
+        return new_parent
 
     def as_seq_iter(self, ip, it) -> SSeq:
         """Iterable -> sequence view (enumerate/zip/range handled pointwise)."""
@@ -878,6 +896,7 @@ class Models:
                 d.items[self.key(ip.ev(e.key, f2))] = ip.ev(e.value, f2)
             return d
         S = self.as_seq_iter(ip, it)
+        fr = self.snapshot_frame(fr)
         h = getattr(ip.reg, "keyed_map_hook", None)
         if h is not None:
             def at(k, what):
